@@ -295,6 +295,45 @@ def check_conversions(ctx: Ctx):
                 alias_history(ctx, case, ell, E, sh, "llh", llh[0].tolist())
         elif rng.random() < 0.1:
             alias_history(ctx, case, ell, E, "nxk", "trs", xyz)
+        # the very same coordinates converted on each of the other ellipsoids straight afterwards (same bytes, same
+        # shape): every result is that ellipsoid's own closed form -- a conversion must not be answered with what was
+        # computed for another ellipsoid of (nearly) the same shape
+        if gi % 4 == 0:
+            others = [n_ for n_ in names if n_ != ell]
+            rng.shuffle(others)
+            seq_ = others[: 3] + [ell]
+            outs = []
+            for n2 in seq_:
+                E2 = ellipsoid.get(n2)
+                try:
+                    l2 = np.asarray(T.trs2llh(arr.copy(), E2), dtype=float).reshape(-1, 3)
+                    b2 = np.asarray(T.llh2trs(as_shape(llh.tolist(), shape), E2), dtype=float).reshape(-1, 3)
+                    p2 = np.asarray(Position(arr.copy(), "trs", ellipsoid=E2).llh, dtype=float).reshape(-1, 3)
+                except Exception as e:
+                    gviolate(ctx, f"raises:ellipsoid-sequence:{type(e).__name__}", f"conversion on {n2} after {ell} raised {type(e).__name__}: {e}", {**case, "ellipsoid_sequence": seq_})
+                    break
+                outs.append((n2, l2, b2, p2))
+            ctx.count("conv:same-bytes-on-several-ellipsoids")
+            ans2 = drv.ask([f"c05 f trs2llh {n2} {fline(*p)}" for n2, *_ in outs for p in xyz] + [f"c05 f llh2trs {n2} {fline(*g_)}" for n2, *_ in outs for g_ in llh.tolist()])
+            for j, (n2, l2, b2, p2) in enumerate(outs):
+                for i in range(m):
+                    mlat, mlon, mh = floats(ans2[j * m + i])
+                    rad = math.sqrt(sum(c * c for c in xyz[i]))
+                    htol = 4 * rad * 2.3e-16 + 1e-9
+                    for what, got_ in (("trs2llh", l2[i]), ("Position.llh", p2[i])):
+                        if not (close(got_[0], mlat, ulp=4, abs_=1e-15) and close(got_[1], mlon, ulp=4, abs_=1e-15) and abs(got_[2] - mh) <= htol):
+                            if abs(got_[0] - mlat) * rad > 1e-6 or abs(got_[2] - mh) > 1e-6:
+                                gviolate(ctx, f"ellipsoid-sequence:{what}", f"{what} of the same coordinates on {n2} (after {[x for x, *_ in outs[:j]] + [ell]}) is {got_.tolist()}, "
+                                         f"not that ellipsoid's value {[mlat, mlon, mh]}", {**case, "i": i, "ellipsoid_sequence": seq_, "on": n2})
+                            else:
+                                gdisagree(ctx, f"{what} on a second ellipsoid (Float model)", {**case, "i": i, "on": n2}, [mlat, mlon, mh], got_.tolist())
+                    mx = floats(ans2[len(outs) * m + j * m + i])
+                    if not all(close(a_, b_, ulp=4, abs_=rad * 4.5e-16) for a_, b_ in zip(b2[i], mx)):
+                        if float(np.linalg.norm(b2[i] - np.array(mx))) > 1e-6:
+                            gviolate(ctx, "ellipsoid-sequence:llh2trs", f"llh2trs of the same coordinates on {n2} (after {[x for x, *_ in outs[:j]] + [ell]}) is {b2[i].tolist()}, "
+                                     f"not that ellipsoid's value {mx}", {**case, "i": i, "ellipsoid_sequence": seq_, "on": n2})
+                        else:
+                            gdisagree(ctx, "llh2trs on a second ellipsoid (Float model)", {**case, "i": i, "on": n2}, mx, b2[i].tolist())
         # the other direction from generated geodetic coordinates
         g = [[gen_lat(rng), gen_lon(rng), rng.choice([rng.uniform(-1e5, 1e5), rng.uniform(1e5, 5e7), 0.0])] for _ in range(m)]
         case2 = {"fn": "llh2trs/trs2llh", "ellipsoid": ell, "shape": shape, "llh": g}
